@@ -62,8 +62,19 @@ class ScratchSys:
         return buf
 
     def canon(self, snap):
+        # the REAL buffer (ScratchDB.cache), not the model's: two op sequences with the same model buffer but different
+        # real buffers must stay different states (a canonical form derived from the model would hide exactly the bugs
+        # that make the real buffer drift from the model)
         w, ops, dd = snap
-        return (w, None if ops is None else tuple(sorted(self.buffer_of(ops).items())), dd if ops is not None else False)
+        if ops is None:
+            return (w, None, False)
+        d, s, cm = self.open_real(snap)
+        return (w, self.real_buffer(s), dd)
+
+    @staticmethod
+    def real_buffer(s):
+        from trie.utils.db import DELETED
+        return tuple(sorted((k, DEL if v is DELETED else v) for k, v in s.cache.items()))
 
     def events(self, snap, model):
         w, ops, dd = snap
@@ -82,7 +93,7 @@ class ScratchSys:
         viols = []
         self.stats["ev:" + ev[0]] += 1
         if ev[0] == "open":
-            return Step((w, (), ev[1]), None, viols)
+            return Step((w, (), ev[1]), (), viols)
         d, s, cm = self.open_real(snap)
         if ev[0] in ("set", "del"):
             try:
@@ -92,7 +103,9 @@ class ScratchSys:
                 return Step(None, None, viols)
             if d.mutations_while_frozen:
                 viols.append(V("C17", "wrapped_written_while_open", "the wrapped database was written while the batch was open", event=ev[0]))
-            return Step((w, ops + (ev,), dd), None, viols)
+            # the model buffer travels as the engine's model: if two histories reach the same REAL state (wrapped, real buffer)
+            # with different model buffers, the engine reports it (the real buffer has drifted from what was asked)
+            return Step((w, ops + (ev,), dd), tuple(sorted(self.buffer_of(ops + (ev,)).items())), viols)
         buf = self.buffer_of(ops)
         pre = d.plain()
         d.frozen = False
@@ -211,6 +224,4 @@ class ScratchSys:
         w = tuple(sorted(live["d"].plain().items()))
         if live["ops"] is None:
             return (w, None, False)
-        from trie.utils.db import DELETED
-        buf = tuple(sorted((k, DEL if v is DELETED else v) for k, v in live["s"].cache.items()))
-        return (w, buf, live["dd"])
+        return (w, self.real_buffer(live["s"]), live["dd"])
